@@ -166,6 +166,7 @@ def main():
         for c in reg.contracts.values():
             if c.extern:
                 assumed_contracts.add("%s%s" % (c.target, (" -- " + c.trusted_reason) if c.trusted_reason else ""))
+        t_sym = time.time() - t_start
         texts = [o["smt2"] for o in packed]
         results = solve.discharge_texts(texts, timeout_s=timeout_s, cores=[o.get("core") for o in packed])
         for o, r, txt in zip(packed, results, texts):
@@ -200,6 +201,7 @@ def main():
             for nme in solve.probe_texts(probes):
                 errors.append("vacuity: %s" % nme)
 
+    t_ded = time.time() - t_start
     # ------------------------------------------------------------------ 2. concrete part
     rt_docs = []
     if not args.no_rt:
@@ -342,6 +344,7 @@ def main():
     print("%s tier=%s: %d/%d obligations discharged over %d functions; %d bounded checks (%d real executions); %d undecided; %.1fs"
           % (prop, tier, n_dis, n_obl, len(functions), len(rt_checks), evals, len(undecided), wall))
     if args.v:
+        print("   timing: symbolic execution %.1fs, deductive total %.1fs, whole check %.1fs" % (locals().get("t_sym", 0.0), t_ded, wall))
         for r in ob_records:
             if r["status"] != "unsat":
                 print("   %s %s [%s] at `%s`" % (r["status"].upper(), r["name"], r["solver"], r["at"]))
